@@ -26,12 +26,12 @@
                      [r'(?s)shell\s*\.env_mut\(\)\s*\.update_or_add\(.*?\)\s*\.map_err\(\|_err\| EvalError::FailedToUpdateEnvironment\)', r'__o.store()', 1],
                      [r'(?s)shell\s*\.env_mut\(\)\s*\.update_or_add_array_element\(.*?\)\s*\.map_err\(\|_err\| EvalError::FailedToUpdateEnvironment\)', r'__o.store_element(index_str)', 1]]},
  'dispatch_d': {'file': 'brush-core/src/arithmetic.rs', 'start': r'^fn eval_expr_impl\(', 'mode': 'fn_body',
-        'rewrites': [[r'eval_expr_impl\((\w+), shell, ([^)]+)\)', r'__o.sub(\2)', 4],
-                     [r'deref_lvalue\(shell, (\w+), ([^)]+)\)', r'__o.sub(\2)', 1],
-                     [r'assign\(shell, (\w+), (\w+), ([^)]+)\)', r'__o.sub(\3)', 2],
-                     [r'apply_unary_op\(shell, \*op, (\w+), ([^)]+)\)', r'__o.sub(\2)', 1],
-                     [r'apply_unary_assignment_op\(shell, (\w+), \*op, ([^)]+)\)', r'__o.sub(\2)', 1],
-                     [r'apply_binary_op\(\s*shell,\s*\*op,\s*([^,]+),\s*([^,]+),\s*([^,)]+),?\s*\)', r'__o.sub(\3)', 2],
+        'rewrites': [[r'eval_expr_impl\((\w+), shell, ([^)]+)\)', r'__o.ev(\1, \2)', 4],
+                     [r'deref_lvalue\(shell, (\w+), ([^)]+)\)', r'__o.deref(\1, \2)', 1],
+                     [r'assign\(shell, (\w+), (\w+), ([^)]+)\)', r'__o.assign(\1, \2, \3)', 2],
+                     [r'apply_unary_op\(shell, \*op, (\w+), ([^)]+)\)', r'__o.unop(*op, \1, \2)', 1],
+                     [r'apply_unary_assignment_op\(shell, (\w+), \*op, ([^)]+)\)', r'__o.incdec(\1, *op, \2)', 1],
+                     [r'apply_binary_op\(\s*shell,\s*\*op,\s*([^,]+),\s*([^,]+),\s*([^,)]+),?\s*\)', r'__o.binop(*op, \1, \2, \3)', 2],
                      [r'(\w+)\.eval\(shell\)', r'__o.eval_restart()', 0]]},
  'binop_d': {'file': 'brush-core/src/arithmetic.rs', 'start': r'^fn apply_binary_op\(', 'mode': 'fn_body',
         'rewrites': [[r'eval_expr_impl\((\w+), shell, ([^)]+)\)', r'__o.sub(\2)', 6], [r'(\w+)\.eval\(shell\)', r'__o.eval_restart()', 0]]},
@@ -45,6 +45,28 @@
 use super::*;
 use crate::vk_prelude::*;
 
+/// Light stand-in for brush_parser::ast inside this module: sub-expressions are tokens, so no value of a recursive type is ever
+/// built, cloned or dropped (the drop glue of the real boxed expression tree is what made the compound-assignment arm time out).
+/// Operator enums are the real ones.
+pub mod ast {
+    pub use brush_parser::ast::{BinaryOperator, UnaryAssignmentOperator, UnaryOperator};
+    #[derive(Clone, Copy, PartialEq, Eq)]
+    pub struct Kid(pub u8);
+    #[derive(Clone, PartialEq, Eq)]
+    pub enum ArithmeticTarget { Variable(Name), ArrayElement(Name, Kid) }
+    #[derive(Clone, Copy, PartialEq, Eq)]
+    pub struct Name;
+    impl Name { pub fn as_str(&self) -> &str { "" } }
+    pub enum ArithmeticExpr {
+        Literal(i64), Reference(ArithmeticTarget), UnaryOp(UnaryOperator, Kid), BinaryOp(BinaryOperator, Kid, Kid), Conditional(Kid, Kid, Kid),
+        Assignment(ArithmeticTarget, Kid), UnaryAssignment(UnaryAssignmentOperator, ArithmeticTarget), BinaryAssignment(BinaryOperator, ArithmeticTarget, Kid),
+    }
+}
+/// what an operand handed to a nested evaluator looks like: a sub-expression token, or a freshly built reference to the assignment target
+pub trait Operand { fn tag(&self) -> u8; }
+impl Operand for &ast::Kid { fn tag(&self) -> u8 { self.0 } }
+impl Operand for &ast::ArithmeticExpr { fn tag(&self) -> u8 { match self { ast::ArithmeticExpr::Reference(_) => 100, ast::ArithmeticExpr::Literal(_) => 101, _ => 102 } } }
+
 pub struct DOracle {
     pub depth: u32,              // the depth the step under test was entered with
     pub min_seen: u32, pub max_seen: u32, pub calls: u8, pub restarts: u8,
@@ -52,21 +74,31 @@ pub struct DOracle {
     pub parsed_evals: u8, pub parsed_depth: u32,
     pub parse_kind: u8,          // 0 literal, 1 non-literal, 2 parse error
     pub val: i64, pub stores: u8,
+    // event log of the dispatch step: (kind, operand tag, second tag); kinds 1 ev, 2 deref, 3 assign, 4 unop, 5 incdec, 6 binop
+    pub ev: [(u8, u8, u8); 4], pub n: usize, pub vals: [i64; 4], pub assigned: Option<i64>, pub opseen: Option<u8>,
 }
 impl DOracle {
     pub fn new(depth: u32) -> Self {
         let pk: u8 = kani::any(); kani::assume(pk < 3);
-        DOracle { depth, min_seen: u32::MAX, max_seen: 0, calls: 0, restarts: 0, index_evals: 0, index_depth: 0, parsed_evals: 0, parsed_depth: 0, parse_kind: pk, val: kani::any(), stores: 0 }
+        DOracle { depth, min_seen: u32::MAX, max_seen: 0, calls: 0, restarts: 0, index_evals: 0, index_depth: 0, parsed_evals: 0, parsed_depth: 0, parse_kind: pk, val: kani::any(), stores: 0,
+                  ev: [(0, 0, 0); 4], n: 0, vals: [kani::any(), kani::any(), kani::any(), kani::any()], assigned: None, opseen: None }
     }
     fn note(&mut self, d: u32) { self.calls += 1; if d < self.min_seen { self.min_seen = d; } if d > self.max_seen { self.max_seen = d; } }
+    fn log(&mut self, k: u8, a: u8, b: u8, d: u32) -> i64 { self.note(d); let i = self.n; kani::assume(i < 4); self.ev[i] = (k, a, b); self.n += 1; self.vals[i] }
     fn sub(&mut self, d: u32) -> Result<i64, EvalError> { self.note(d); Ok(self.val) }
+    fn ev(&mut self, e: &ast::Kid, d: u32) -> Result<i64, EvalError> { Ok(self.log(1, e.0, 0, d)) }
+    fn deref(&mut self, _l: &ast::ArithmeticTarget, d: u32) -> Result<i64, EvalError> { Ok(self.log(2, 0, 0, d)) }
+    fn assign(&mut self, _l: &ast::ArithmeticTarget, v: i64, d: u32) -> Result<i64, EvalError> { self.log(3, 0, 0, d); self.assigned = Some(v); Ok(v) }
+    fn unop(&mut self, _op: ast::UnaryOperator, e: &ast::Kid, d: u32) -> Result<i64, EvalError> { Ok(self.log(4, e.0, 0, d)) }
+    fn incdec(&mut self, _l: &ast::ArithmeticTarget, _op: ast::UnaryAssignmentOperator, d: u32) -> Result<i64, EvalError> { Ok(self.log(5, 0, 0, d)) }
+    fn binop<L: Operand, R: Operand>(&mut self, op: ast::BinaryOperator, l: L, r: R, d: u32) -> Result<i64, EvalError> { self.opseen = Some(op as u8); Ok(self.log(6, l.tag(), r.tag(), d)) }
     fn eval_restart(&mut self) -> Result<i64, EvalError> { self.restarts += 1; self.note(0); Ok(self.val) }
     fn eval_index(&mut self, d: u32) -> Result<String, EvalError> { self.index_evals += 1; self.index_depth = d; self.note(d); Ok(String::new()) }
     fn eval_index_restart(&mut self) -> Result<String, EvalError> { self.index_evals += 1; self.restarts += 1; self.index_depth = 0; self.note(0); Ok(String::new()) }
     fn var_value(&mut self) -> Result<Cow<'static, str>, EvalError> { Ok(Cow::Borrowed("")) }
     fn array_value(&mut self, _i: &str) -> Cow<'static, str> { Cow::Borrowed("") }
     fn parse(&mut self) -> Result<ast::ArithmeticExpr, ()> {
-        match self.parse_kind { 0 => Ok(ast::ArithmeticExpr::Literal(7)), 1 => Ok(ast::ArithmeticExpr::Reference(ast::ArithmeticTarget::Variable(String::new()))), _ => Err(()) }
+        match self.parse_kind { 0 => Ok(ast::ArithmeticExpr::Literal(7)), 1 => Ok(ast::ArithmeticExpr::Reference(ast::ArithmeticTarget::Variable(ast::Name))), _ => Err(()) }
     }
     fn eval_parsed(&mut self, _e: &ast::ArithmeticExpr, d: u32) -> Result<i64, EvalError> { self.parsed_evals += 1; self.parsed_depth = d; self.note(d); Ok(self.val) }
     fn store(&mut self) -> Result<(), EvalError> { self.stores += 1; Ok(()) }
@@ -82,19 +114,18 @@ fn t_assign(lvalue: &ast::ArithmeticTarget, value: i64, depth: u32, __o: &mut DO
 fn t_dispatch(expr: &ast::ArithmeticExpr, depth: u32, __o: &mut DOracle) -> Result<i64, EvalError> {
 /*@LIFT dispatch_d*/
 }
-fn t_binop(op: ast::BinaryOperator, left: &ast::ArithmeticExpr, right: &ast::ArithmeticExpr, depth: u32, __o: &mut DOracle) -> Result<i64, EvalError> {
+fn t_binop(op: ast::BinaryOperator, left: &ast::Kid, right: &ast::Kid, depth: u32, __o: &mut DOracle) -> Result<i64, EvalError> {
 /*@LIFT binop_d*/
 }
-fn t_unop(op: ast::UnaryOperator, operand: &ast::ArithmeticExpr, depth: u32, __o: &mut DOracle) -> Result<i64, EvalError> {
+fn t_unop(op: ast::UnaryOperator, operand: &ast::Kid, depth: u32, __o: &mut DOracle) -> Result<i64, EvalError> {
 /*@LIFT unop_d*/
 }
 fn t_incdec(lvalue: &ast::ArithmeticTarget, op: ast::UnaryAssignmentOperator, depth: u32, __o: &mut DOracle) -> Result<i64, EvalError> {
 /*@LIFT incdec_d*/
 }
 
-fn lit(n: i64) -> Box<ast::ArithmeticExpr> { Box::new(ast::ArithmeticExpr::Literal(n)) }
-fn var() -> ast::ArithmeticTarget { ast::ArithmeticTarget::Variable(String::new()) }
-fn elem() -> ast::ArithmeticTarget { ast::ArithmeticTarget::ArrayElement(String::new(), lit(0)) }
+fn var() -> ast::ArithmeticTarget { ast::ArithmeticTarget::Variable(ast::Name) }
+fn elem() -> ast::ArithmeticTarget { ast::ArithmeticTarget::ArrayElement(ast::Name, ast::Kid(9)) }
 fn any_depth() -> u32 { let d: u32 = kani::any(); kani::assume(d <= MAX_VARIABLE_DEREF_DEPTH); d }
 
 //@proof {'props': ['C01', 'C07'], 'tier': 'quick', 'timeout': 600, 'uses': ['deref_d'], 'bounds': 'depth 0..=MAX symbolic; target a variable or an array element (symbolic); contents parse to a literal / a non-literal / a parse error (symbolic)', 'desc': 'recursion guard of variable dereference: the subscript is evaluated at the caller\'s depth (never restarted at 0); contents that need further evaluation are evaluated at depth+1 and refused with "recursion level exceeded" beyond the limit; nothing is ever evaluated above the limit - hence evaluation of self-referential variables terminates with an error instead of overflowing the stack'}
@@ -139,37 +170,70 @@ fn vk_c07_assign_depth() {
     std::mem::forget(r); std::mem::forget(lv);
 }
 
-//@proof {'props': ['C01', 'C07'], 'tier': 'quick', 'timeout': 900, 'uses': ['dispatch_d', 'binop_d', 'unop_d', 'incdec_d'], 'bounds': 'depth 0..=MAX symbolic; one evaluator step on each of the 8 expression kinds (symbolic), binary operator in {&&, ||, +, **} symbolic', 'desc': 'every nested evaluator call made by eval_expr_impl, apply_binary_op, apply_unary_op and apply_unary_assignment_op carries exactly the depth it was entered with - no arm restarts the count or skips a level'}
+//@proof {'props': ['C01', 'C07'], 'tier': 'quick', 'timeout': 900, 'uses': ['binop_d', 'unop_d', 'incdec_d'], 'bounds': 'depth 0..=MAX symbolic; binary operator in {&&, ||, +, *} symbolic', 'desc': 'every nested evaluator call made by apply_binary_op, apply_unary_op and apply_unary_assignment_op carries exactly the depth it was entered with'}
 #[kani::proof]
 #[kani::unwind(3)]
 fn vk_c01_depth_passed_unchanged() {
     let depth = any_depth();
     let mut o = DOracle::new(depth);
-    let which: u8 = any_below(4);
-    let k: u8 = any_below(8);
-    let bop = match any_below(4) { 0 => ast::BinaryOperator::LogicalAnd, 1 => ast::BinaryOperator::LogicalOr, 2 => ast::BinaryOperator::Add, _ => ast::BinaryOperator::Power };
+    let which: u8 = any_below(3);
+    let bop = match any_below(4) { 0 => ast::BinaryOperator::LogicalAnd, 1 => ast::BinaryOperator::LogicalOr, 2 => ast::BinaryOperator::Add, _ => ast::BinaryOperator::Multiply };
     match which {
-        0 => {
-            let e = match k {
-                0 => ast::ArithmeticExpr::Literal(1),
-                1 => ast::ArithmeticExpr::Reference(var()),
-                2 => ast::ArithmeticExpr::UnaryOp(ast::UnaryOperator::UnaryMinus, lit(0)),
-                3 => ast::ArithmeticExpr::BinaryOp(bop, lit(0), lit(1)),
-                4 => ast::ArithmeticExpr::Conditional(lit(0), lit(1), lit(2)),
-                5 => ast::ArithmeticExpr::Assignment(var(), lit(0)),
-                6 => ast::ArithmeticExpr::UnaryAssignment(ast::UnaryAssignmentOperator::PostfixIncrement, var()),
-                _ => ast::ArithmeticExpr::BinaryAssignment(ast::BinaryOperator::Add, var(), lit(0)),
-            };
-            let r = t_dispatch(&e, depth, &mut o);
-            assert!((k == 0) == (o.calls == 0), "C07.dispatch.only_a_literal_needs_no_nested_evaluation");
-            std::mem::forget(r); std::mem::forget(e);
-        }
-        1 => { let (l, r_) = (lit(0), lit(1)); let r = t_binop(bop, &l, &r_, depth, &mut o); assert!(o.calls >= 1, "C07.binop.evaluates_operands"); std::mem::forget(r); std::mem::forget(l); std::mem::forget(r_); }
-        2 => { let l = lit(0); let r = t_unop(ast::UnaryOperator::LogicalNot, &l, depth, &mut o); assert!(o.calls == 1, "C07.unop.evaluates_operand_once"); std::mem::forget(r); std::mem::forget(l); }
-        _ => { let lv = var(); let r = t_incdec(&lv, ast::UnaryAssignmentOperator::PrefixDecrement, depth, &mut o); assert!(o.calls == 2, "C07.incdec.reads_then_stores"); std::mem::forget(r); std::mem::forget(lv); }
+        0 => { let r = t_binop(bop, &ast::Kid(0), &ast::Kid(1), depth, &mut o); assert!(o.calls >= 1, "C07.binop.evaluates_operands"); std::mem::forget(r); }
+        1 => { let r = t_unop(ast::UnaryOperator::LogicalNot, &ast::Kid(0), depth, &mut o); assert!(o.calls == 1, "C07.unop.evaluates_operand_once"); std::mem::forget(r); }
+        _ => { let lv = var(); let r = t_incdec(&lv, ast::UnaryAssignmentOperator::PrefixDecrement, depth, &mut o); assert!(o.calls == 2, "C07.incdec.reads_then_stores"); std::mem::forget(r); }
     }
-    kani::cover!(which == 0 && k == 7, "compound_assignment_arm");
-    kani::cover!(which == 1 && o.calls == 1, "short_circuit");
+    kani::cover!(which == 0 && o.calls == 1, "short_circuit");
+    kani::cover!(which == 2, "increment");
     assert!(o.restarts == 0, "C01.depth.no_nested_evaluation_restarts_at_depth_0");
-    assert!(o.calls == 0 || (o.min_seen == depth && o.max_seen == depth), "C01.depth.passed_unchanged_to_every_nested_call");
+    assert!(o.min_seen == depth && o.max_seen == depth, "C01.depth.passed_unchanged_to_every_nested_call");
+}
+
+//@proof {'props': ['C07', 'C01'], 'tier': 'quick', 'timeout': 900, 'uses': ['dispatch_d'], 'bounds': 'one evaluator step on each of the 8 expression kinds (symbolic); compound-assignment operator among the 11 (symbolic); sub-evaluation results any i64; depth 0..=MAX symbolic', 'desc': 'dispatch contract of eval_expr_impl: a literal is itself; a reference is dereferenced; ?: evaluates the condition then exactly the selected branch; x = e evaluates e then stores that value; x op= e applies op to (a reference to x, the *unevaluated* e) - so x is read before any side effect of e - then stores the result once; ++/-- go to the increment routine; every nested call carries the caller\'s depth'}
+#[kani::proof]
+#[kani::unwind(3)]
+fn vk_c07_dispatch_contract() {
+    let depth = any_depth();
+    let mut o = DOracle::new(depth);
+    let k: u8 = any_below(8);
+    let is_elem: bool = kani::any();
+    let tgt = if is_elem { elem() } else { var() };
+    let t: u8 = any_below(11);
+    let op = match t { 0 => ast::BinaryOperator::Power, 1 => ast::BinaryOperator::Multiply, 2 => ast::BinaryOperator::Divide, 3 => ast::BinaryOperator::Modulo,
+                       4 => ast::BinaryOperator::Add, 5 => ast::BinaryOperator::Subtract, 6 => ast::BinaryOperator::ShiftLeft, 7 => ast::BinaryOperator::ShiftRight,
+                       8 => ast::BinaryOperator::BitwiseAnd, 9 => ast::BinaryOperator::BitwiseXor, _ => ast::BinaryOperator::BitwiseOr };
+    let lit: i64 = kani::any();
+    let e = match k {
+        0 => ast::ArithmeticExpr::Literal(lit),
+        1 => ast::ArithmeticExpr::Reference(tgt.clone()),
+        2 => ast::ArithmeticExpr::UnaryOp(ast::UnaryOperator::UnaryMinus, ast::Kid(0)),
+        3 => ast::ArithmeticExpr::BinaryOp(op, ast::Kid(0), ast::Kid(1)),
+        4 => ast::ArithmeticExpr::Conditional(ast::Kid(0), ast::Kid(1), ast::Kid(2)),
+        5 => ast::ArithmeticExpr::Assignment(tgt.clone(), ast::Kid(1)),
+        6 => ast::ArithmeticExpr::UnaryAssignment(ast::UnaryAssignmentOperator::PostfixIncrement, tgt.clone()),
+        _ => ast::ArithmeticExpr::BinaryAssignment(op, tgt.clone(), ast::Kid(1)),
+    };
+    let v = vk_ok(t_dispatch(&e, depth, &mut o));
+    kani::cover!(k == 7 && t == 5, "minus_assign");
+    kani::cover!(k == 4 && o.vals[0] == 0, "else_branch");
+    kani::cover!(k == 5 && is_elem, "element_assignment");
+    assert!(o.restarts == 0 && (o.calls == 0 || (o.min_seen == depth && o.max_seen == depth)), "C01.depth.passed_unchanged_to_every_nested_call");
+    match k {
+        0 => assert!(o.n == 0 && v == lit, "C07.dispatch.literal_is_itself"),
+        1 => assert!(o.n == 1 && o.ev[0].0 == 2 && v == o.vals[0], "C07.dispatch.reference_is_dereferenced_once"),
+        2 => assert!(o.n == 1 && o.ev[0] == (4, 0, 0) && v == o.vals[0], "C07.dispatch.unary_operator_routine"),
+        3 => assert!(o.n == 1 && o.ev[0] == (6, 0, 1) && o.opseen == Some(op as u8) && v == o.vals[0], "C07.dispatch.binary_operator_routine_with_operands_in_order"),
+        4 => {
+            assert!(o.n == 2 && o.ev[0] == (1, 0, 0), "C07.cond.condition_once_first");
+            if o.vals[0] != 0 { assert!(o.ev[1] == (1, 1, 0) && v == o.vals[1], "C07.cond.then_only"); } else { assert!(o.ev[1] == (1, 2, 0) && v == o.vals[1], "C07.cond.else_only"); }
+            assert!(o.assigned.is_none(), "C07.cond.no_side_effect");
+        }
+        5 => assert!(o.n == 2 && o.ev[0] == (1, 1, 0) && o.ev[1].0 == 3 && o.assigned == Some(o.vals[0]) && v == o.vals[0], "C07.assign.rhs_then_store_that_value"),
+        6 => assert!(o.n == 1 && o.ev[0].0 == 5 && v == o.vals[0] && o.assigned.is_none(), "C07.dispatch.increment_routine"),
+        _ => {
+            // (a reference to the target, the unevaluated operand): the target is read inside the operator routine before the operand is evaluated
+            assert!(o.n == 2 && o.ev[0] == (6, 100, 1) && o.opseen == Some(op as u8), "C07.opassign.applies_op_to_lvalue_reference_then_unevaluated_operand");
+            assert!(o.ev[1].0 == 3 && o.assigned == Some(o.vals[0]) && v == o.vals[0], "C07.opassign.stores_result_once_and_yields_it");
+        }
+    }
 }
